@@ -1,11 +1,14 @@
 from .registry import prop
-from .tp_common import TP_CORE, tp_variants
+from .tp_common import TP_CORE, tp_variants, INTERPOSE
+
+# threadpool.c reaches pidfd_open through syscall(): redirect it as well so that process descriptors are accounted for
+TP_CORE_PROC = [dict(t, cflags=INTERPOSE + ["-Dsyscall=verif_syscall"]) if t["src"].endswith("threadpool.c") else t for t in TP_CORE]
 
 
 @prop("C06")
 def c06():
     return dict(
-        units=[dict(kind="rc", driver="C06_ev", shims=["tp_common.c", "tp_ev.c"] + TP_CORE, variants=tp_variants,
+        units=[dict(kind="rc", driver="C06_ev", shims=["tp_common.c", "tp_ev.c"] + TP_CORE_PROC, variants=tp_variants,
                     scale={"quick": 1.0, "thorough": 10.0})],
         level="exploration",
         rule=("(a) ev_program: rapidcheck sequences of add/enable/disable/delete with generated event kind, flags (valid and unknown bits), "
@@ -14,12 +17,18 @@ def c06():
               "with an exact 128-bit integer conversion; plus an exhaustive unit-boundary table. (b) ev_fire: rapidcheck histories over 1-3 "
               "channels (socketpair read, socketpair write, 1-12 ms timers) of add/enable/disable/delete (on the owning thread or from "
               "outside), peer write, drain, peer close, sleep; a per-channel model predicts silent / exactly-once / at-least-once; negative "
-              "claims are sequenced through the owning thread with fences, awaited callbacks use a 20 s ceiling (3 of 3 runs). Non-trivial: "
+              "claims are sequenced through the owning thread with fences, awaited callbacks use a 20 s ceiling (3 of 3 runs). (c) ev_proc: "
+              "rapidcheck histories over 1-3 real child processes (forked by the harness, exit code 0..255 or killed by SIGKILL) of "
+              "add/enable/disable/delete (valid and malformed flags / filter flags, in-thread or from outside), child exit and sleep, with an "
+              "optional injected epoll_ctl failure; a model predicts every return code (EEXIST, ENOENT, ESRCH after the library reaped the "
+              "child, EINVAL before the first add), exactly one report per exit carrying TP_FF_P_EXIT and the true wait status, silence after "
+              "disable/delete, and the exact number of open process descriptors after every step (pidfd_open is counted through the "
+              "redirected syscall()). Non-trivial: "
               "sub-second or >=2^32 timer data, one-shot/dispatch registrations, >=3 operations, disable/delete with the condition still "
               "holding, EOF, >=2 channels. distinct = distinct case fingerprints."),
         assumptions=["flag bits 2-3 (reserved for EDGE/EXCLUSIVE in the header mask) are not asserted either way",
                      "timer values whose seconds exceed 2^62 are outside the asserted domain (time_t)",
-                     "TP_EV_PROC is exercised only for refusal paths (no child processes are forked)",
+                     "process events: the children are direct children of the test process and nobody else waits for them",
                      "the kernel's epoll/timerfd semantics are trusted"],
     )
 
@@ -29,7 +38,8 @@ MANIFEST = {"C06": dict(
     technique="rapidcheck: captured-syscall-argument oracle with exact integer conversion + model-based firing histories on the real kernel",
     text=("Registration programming is decided deterministically by comparing the captured timerfd/epoll arguments with an exact conversion "
           "for every unit, flag and boundary value, including refusal of malformed registrations without residue; firing behaviour is decided "
-          "by model-based histories (persistent / one-shot / dispatch / disabled / deleted / EOF) on a live pool thread."),
+          "by model-based histories (persistent / one-shot / dispatch / disabled / deleted / EOF) on a live pool thread, and process events by "
+          "histories over real child processes with exact return-code, report-count, wait-status and descriptor-count predictions."),
     design_ref="DESIGN.md section 4 C06",
-    note="Part (b) samples histories and schedules; awaited events use a ceiling that must be hit 3 of 3 times to count. No TP_EV_PROC firing, no RST/error-flag scenario.",
+    note="Part (b) samples histories and schedules; awaited events use a ceiling that must be hit 3 of 3 times to count. No RST/error-flag scenario.",
 )}
